@@ -23,7 +23,7 @@ ASSUMPTIONS = [
 ]
 BUDGET = {
     'quick': {'enum': ['k1', 'k2', 'self2', 'listener', 'wc1', 'wc2'], 'hyp': 6000, 'shards': 8},
-    'thorough': {'enum': ['k1', 'k2', 'k3', 'self3', 'listener', 'listener2', 'wc1', 'wc2'], 'hyp': 200000, 'shards': 16},
+    'thorough': {'enum': ['k1', 'k2', 'k3', 'k4w', 'self3', 'listener', 'listener2', 'wc1', 'wc2'], 'hyp': 200000, 'shards': 16},
 }
 
 ALPHABET = [['pause', 'p'], ['play'], ['kill', 'kt'], ['resume', 1], ['cancel']]
@@ -40,6 +40,10 @@ def enumerate_cases(tier, scope):
         for name in ('async2', 'wait1', 'chain', 'waitwait', 'failing', 'gated'):
             for sched in gen.schedules(ALPHABET, k, max_gap):
                 yield {'program': cat[name], 'schedule': sched, 'tag': f'{scope}:{name}'}
+    elif scope == 'k4w':
+        for name in ('wait1', 'waitwait', 'async2'):
+            for sched in gen.schedules(ALPHABET, 4, 1):
+                yield {'program': cat[name], 'schedule': [['tick', 1]] + sched, 'tag': f'k4w:{name}'}
     elif scope in ('wc1', 'wc2'):
         k = int(scope[2])
         for name in gen.WC_CATALOGUE:
